@@ -41,9 +41,14 @@ CHECKS.update({
         technique="TLA+ spec (Cache, CacheMC Isolation/ResetClears) exhaustive TLC + trace validation on real cache.Cache (CacheTrace)"),
     "C15": dict(category="model_checking",
         text="Counters are state of Cache.tla; CacheMC checks CountersInv (leaves = stored non-meta leaves = added - deleted >= 0), LatestInv and ResetClears exhaustively; on the real cache every target's counters "
-             "(Cache.Metadata()) and exported meta leaves are read after every call of random histories mixing updates with Sync/Connect/ConnectError/Reset/UpdateMetadata/UpdateSize and validated by TLC against the specification's counters.",
-        design_ref="5/C15", note=CACHE_NOTE + " Latency statistics and the concurrent-refresh clause are not yet decided by this check (see DESIGN.md section 6).",
-        technique="TLA+ spec (Cache counters, CacheMC CountersInv/LatestInv) exhaustive TLC + trace validation of Cache.Metadata() on real cache.Cache (CacheTrace)"),
+             "(Cache.Metadata()) and exported meta leaves are read after every call of random histories mixing updates with Sync/Connect/ConnectError/Reset/UpdateMetadata/UpdateSize and validated by TLC against the specification's counters. "
+             "Latency clause: Latency.tla (batch, slots, slide, export) is model-checked for Bounded/Window with three mutants that must violate them, and every export of the real latency.Latency "
+             "(stubbed clock; zero, negative and outlier latencies; regular and irregular update times; precisions 1/10/1000 ns) is validated by LatencyTrace.tla against the extremes of the recorded samples. "
+             "Concurrent-refresh clause: one update stream per target concurrently with UpdateMetadata/UpdateSize/readers under the race-detector build; final counters validated by CacheConcTrace.tla.",
+        design_ref="5/C15, 12", note=CACHE_NOTE + " The latency window is taken at the granularity of the update calls; the initial-coverage rule is not checked; races are found only in monitored executions "
+                                                   "(one genuine race found and repaired, c326314).",
+        technique="TLA+ specs (Cache counters: CacheMC CountersInv/LatestInv; Latency.tla Bounded/Window with mutants) exhaustive TLC + trace validation on real cache.Cache (CacheTrace), "
+                  "latency.Latency (LatencyTrace) and concurrent executions under the race detector (CacheConcTrace)"),
 })
 CHECKS["C11"] = dict(category="model_checking",
     text="Coalesce.tla (sequential semantics: FIFO by first pending insertion, dup counts, conservation, refusal after close) and CoalesceChan.tla (implementation-shaped: mutex, capacity-1 token channel, "
